@@ -469,6 +469,9 @@ func (e *Env) pkgMember(pkg *types.Package, name string) (Value, bool) {
 		if !ok {
 			return Value{}, false
 		}
+		if c := e.x.ck.constGlobal(g); c != nil {
+			return e.x.constValue(c), true
+		}
 		gp := e.x.globalPtr(e.st, g)
 		return e.x.loadNoFacts(e.st, gp.P), true
 	}
